@@ -472,6 +472,27 @@ fn run_history(
         }
         if let Op::Insert { info, .. } = &step.op {
             let admitted = matches!(step.insert, Some(Outcome::Inserted));
+            if step.lagging {
+                let hits = info.coins.iter().any(|(u, _)| {
+                    step.truth.spent_coins.contains(u)
+                        && step.chain.coins.contains_key(u)
+                        && h.model.pooled_committed_inputs.contains(&Key::Coin(*u))
+                }) || info.msgs.iter().any(|m| {
+                    step.truth.spent_messages.contains(&m.nonce)
+                        && step.chain.messages.contains_key(&m.nonce)
+                        && h.model.pooled_committed_inputs.contains(&Key::Msg(m.nonce))
+                });
+                if hits {
+                    tot.add(
+                        if admitted {
+                            "probe.stale_view.respend_input_of_imported_pooled_tx.accepted"
+                        } else {
+                            "probe.stale_view.respend_input_of_imported_pooled_tx.not_accepted"
+                        },
+                        1,
+                    );
+                }
+            }
             for (pos, v) in info.variants.iter().enumerate() {
                 tot.add(&format!("insert.submitted.variant.{v}"), 1);
                 if admitted {
